@@ -9,9 +9,9 @@ import lib
 ID = 'C02'
 GEN_FILES = ['T_luanames', 'T_lexer', 'T_minwiring_lua', 'T_minwiring_tool', 'T_minwiring_build',
              # source pins of the hand-modelled modules (gen/kernels_pins.py)
-             'T_pins_luamin']
+             'T_pins_luamin', 'T_pins_luacontainer']
 COQ_PROPERTY = 'theories/Properties/C02.vo'
-COQ_EXTRA = ['theories/Proofs/LuaMinPins.vo']
+COQ_EXTRA = ['theories/Proofs/LuaMinPins.vo', 'theories/Proofs/LuaContainerPins.vo']
 MODEL = ('ExC02', 'c02_main.ml')
 MONITOR = ('MonC02', 'c02_mon_main.ml')
 CASE_TIMEOUT = 120
